@@ -447,7 +447,7 @@ def table(pid, tier):
         T = dict(mc=[(i, inv, []) for i in insts], gen=[(i, 1200 if q else 30000) for i in insts],
                  free=[(i, 100 if q else 1000) for i in insts[:2]])
     elif pid == "C13":
-        ks = [1, 2, 10, 12, 23] if q else list(range(33))
+        ks = [1, 2, 10, 23] if q else list(range(33))
         insts = [api_mix(tier, k) for k in ks]
         inv = ["C13_NoDeadlock"]
         T = dict(mc=[(i, inv, []) for i in insts], gen=[(i, 500 if q else 4000) for i in insts[:3 if q else 10]],
